@@ -66,7 +66,7 @@ func c10Strata() []stratum {
 			c.Assets = []string{"USD"}
 			c.PBig, c.PVarAmt, c.PDstSeq, c.PSrcSeq, c.PWorld, c.PAbsent = 70, 8, 60, 40, 25, 3
 			c.MaxStmts, c.Depth = 3, 2
-		}), 2},
+		}), 5},
 	}
 }
 
